@@ -107,6 +107,9 @@ func exprDepth(v ssa.Value, d int) string {
 		}
 		return exprDepth(x.X, d+1) + "[" + lo + ":" + hi + "]"
 	case *ssa.Phi:
+		if len(x.Edges) > 4 || d > 4 {
+			return "phi(…)"
+		}
 		var es []string
 		for _, e := range x.Edges {
 			es = append(es, exprDepth(e, d+1))
